@@ -6,7 +6,9 @@ BASE = dict(NI=2, NV=2, MaxOps=4, MaxCrashes=1, SnapEvery=2, RotAfter=1, FixComp
 
 
 def model_check(ck, tier, invariants="CrashSafe Quiescent SeqFresh"):
-    grid = [dict(SnapEvery=2, RotAfter=1), dict(SnapEvery=1, RotAfter=2), dict(SnapEvery=3, RotAfter=0)]
+    grid = [dict(SnapEvery=2, RotAfter=1), dict(SnapEvery=1, RotAfter=2), dict(SnapEvery=3, RotAfter=0),
+            dict(SnapEvery=2, RotAfter=2, MaxBatch=2),                  # batch deletes (one frame per present id)
+            dict(SnapEvery=2, RotAfter=1, WithUmeta="TRUE", MaxOps=3)]  # metadata updates as operations
     if tier == "thorough":
         grid += [dict(SnapEvery=2, RotAfter=1, MaxOps=5, MaxCrashes=2), dict(SnapEvery=2, RotAfter=2, MaxOps=5, MaxCrashes=2)]
     for g in grid:
@@ -19,3 +21,8 @@ def model_check(ck, tier, invariants="CrashSafe Quiescent SeqFresh"):
         ck.add_tlc("Durability expected counterexample: " + name, r)
         if r.violation != inv:
             ck.drift("Durability.tla no longer yields the expected counterexample for '%s' (got %s)" % (name, r.violation))
+    # the listed known finding C01-batch-delete-not-atomic, reproduced in the specification
+    r = tlc("Durability", cfg="DurabilityBatch.cfg", consts=dict(BASE, MaxBatch=2, RotAfter=2), workers=8, timeout=1200, expect_violation=True)
+    ck.add_tlc("Durability expected counterexample: a crash between the frames of a batch delete leaves part of it applied (known finding)", r)
+    if r.violation != "BatchAllOrNothing":
+        ck.drift("Durability.tla no longer yields the batch-delete counterexample (got %s)" % r.violation)
